@@ -23,6 +23,7 @@ META = dict(
     technique="expression extraction from the AST + interval/sign reasoning with computer algebra",
 )
 META["text"] += ' (R5, N) no estimator, bet or test obtains a parameter as `value or default`, which would replace a configured 0 (a legitimate assumed error rate, shrinkage weight or padding) by the default.'
+META["text"] += " (R6, N) NonnegMean's constructor stores u, N, t, random_order from its parameters and installs every keyword argument as an attribute (where the estimators and bets read their tuning parameters)."
 
 REL = nnm.REL
 
@@ -235,6 +236,16 @@ def run(chk):
                    "default`, which would replace a configured 0", node=fd, strength="N", or_defaults=bad)
             n5 += 1
     chk.need("C13.R5", n5, 11, "registered estimators, bets and tests")
+    # R6: u, N, t are what the caller passed, and tuning parameters given as keyword arguments become attributes
+    from .. import aud as _aud
+    _aud.ctor_fields(chk, "C13.R6", nnm.REL, nnm.CLS, ["u", "N", "t", "random_order"], "the ranges are stated in terms of the configured u, N, t")
+    init = idx.func(nnm.REL, f"{nnm.CLS}.__init__")
+    kw = init.args.kwarg.arg if init.args.kwarg else None
+    upd = [c for c in _ast.walk(init) if isinstance(c, _ast.Call) and norm(c.func) == "self.__dict__.update" and len(c.args) == 1 and kw and norm(c.args[0]) == kw]
+    top = [c for c in upd if _parent(_parent(c)) is init]
+    chk.ob("C13.R6", W("__init__"), "keyword-parameters-become-attributes", len(top) == 1,
+           "every keyword argument (eta, c, d, f, minsd, lam, c_grapa_*, rate_error_2, g, ...) is installed as an attribute, which is "
+           "where the estimators and bets read it from", node=init, strength="N")
 
 
 def thorough(chk):
